@@ -128,6 +128,59 @@ __CPROVER_ensures((RV == NNG_OK && g_k < URL_STORE(src)) ==> U8P((*dstp)->u_buff
     /* clang-format on */
     ;
 
+/* ---- nni_url_default_port -------------------------------------------------
+ * Only memory safety and frame (used as a replaced callee by the parser
+ * unit): any NUL-terminated scheme string, nothing assigned. */
+uint16_t nni_url_default_port(const char *scheme)
+    /* clang-format off */
+__CPROVER_requires(__CPROVER_is_fresh(scheme, STR_ROOM(scheme)) && STR_ROOM(scheme) >= 1 && STR_ROOM(scheme) <= URL_STR_MAX && scheme[STR_ROOM(scheme) - 1] == 0)
+__CPROVER_assigns()
+    /* clang-format on */
+    ;
+
+/* ---- nni_url_canonify_uri -------------------------------------------------
+ * Input: the string between `out` and the end of its object, terminator
+ * within the first URL_QCAP+1 bytes (grade Pb).
+ *
+ * Two contract texts, selected per unit:
+ *  VP_CANON_ABSTRACT  memory safety + "still terminated" only; this is the
+ *                     text the parser unit uses when it REPLACES the call,
+ *                     and unit canonify_abs enforces the very same text.
+ *  default            RFC 3986 6.2.2 normal form of an accepted string, at
+ *                     the free ghost index g_k (see clauses). */
+#ifdef VP_CANON_ABSTRACT
+nng_err nni_url_canonify_uri(char *out)
+    /* clang-format off */
+__CPROVER_requires(__CPROVER_is_fresh(out, STR_ROOM(out)) && STR_ROOM(out) >= 1 && STR_ROOM(out) <= URL_HEAP_MAX)
+__CPROVER_requires(STR_TERMINATED_WITHIN(out, URL_QCAP, vp_c1))
+__CPROVER_assigns(__CPROVER_object_from(out), g_exit)
+__CPROVER_ensures(RV == NNG_OK || RV == NNG_EINVAL)
+__CPROVER_ensures(STR_TERMINATED_WITHIN(out, URL_QCAP, vp_c2))
+    /* clang-format on */
+    ;
+#else
+nng_err nni_url_canonify_uri(char *out)
+    /* clang-format off */
+__CPROVER_requires(__CPROVER_is_fresh(out, STR_ROOM(out)) && STR_ROOM(out) >= 1 && STR_ROOM(out) <= URL_HEAP_MAX)
+/* g_n := strlen(out) (defines the ghost, does not restrict the input) */
+__CPROVER_requires(g_n <= URL_QCAP && g_n < STR_ROOM(out) && out[g_n] == 0)
+__CPROVER_requires(g_n == 0 || STR_BEFORE_END(out, g_n - 1, URL_QCAP, vp_c0))
+__CPROVER_assigns(__CPROVER_object_from(out), g_exit)
+__CPROVER_ensures(RV == NNG_OK || RV == NNG_EINVAL)
+/* in place, never longer than the input */
+__CPROVER_ensures(__CPROVER_exists { size_t vp_c3; (vp_c3 <= URL_QCAP) && (vp_c3 <= g_n && out[vp_c3] == 0) })
+/* escapes that remain are upper-case hex and do not encode an unreserved character */
+__CPROVER_ensures((RV == NNG_OK && g_k < URL_QCAP && STR_BEFORE_END(out, g_k, URL_QCAP, vp_c4) && out[g_k] == '%') ==>
+    (URI_UPHEX(out[g_k + 1]) && URI_UPHEX(out[g_k + 2]) && !URI_UNRESERVED(URI_HEXV(out[g_k + 1]) * 16 + URI_HEXV(out[g_k + 2]))))
+/* path part: no empty segment ... */
+__CPROVER_ensures((RV == NNG_OK && g_k < URL_QCAP && STR_BEFORE_END(out, g_k, URL_QCAP, vp_c5) && STR_IN_PATH(out, g_k, URL_QCAP, vp_c6) && out[g_k] == '/') ==> out[g_k + 1] != '/')
+/* ... and no "." or ".." segment */
+__CPROVER_ensures((RV == NNG_OK && g_k < URL_QCAP && STR_BEFORE_END(out, g_k, URL_QCAP, vp_c7) && STR_IN_PATH(out, g_k, URL_QCAP, vp_c8) && out[g_k] == '/' && out[g_k + 1] == '.') ==>
+    (!URI_SEG_END(out[g_k + 2]) && !(out[g_k + 2] == '.' && URI_SEG_END(out[g_k + 3]))))
+    /* clang-format on */
+    ;
+#endif
+
 /* ---- nni_url_parse_inline_inner -------------------------------------------
  * C19: "accepts a string only if it has a known scheme followed by ://".
  * Input: any object of g_n+1 bytes ending in 0 (g_n <= URL_STR_CAP, grade Pb).
